@@ -67,6 +67,12 @@ def t_dag_mul_exp(a, s):
     return jnp.transpose(jnp.exp(jnp.transpose(a, P3) * jnp.transpose(s, P3)), P3)
 
 
+def t_dag_keep(a, s):
+    """one-level DAG whose first input transpose survives the fold (it is also a model output)"""
+    ta = jnp.transpose(a, P3)
+    return jnp.transpose(ta * jnp.transpose(s, P3), P3), ta
+
+
 def reshape_pair(x):
     return jnp.reshape(jax.nn.relu(jnp.reshape(x, (6, 4))), (2, 3, 4)) + 1.0
 
@@ -220,6 +226,7 @@ def catalogue() -> dict:
         "t_chain": _req(t_chain, [(2, 3, 4)]),
         "t_dag_mul_add": _req(t_dag_mul_add, [(2, 3, 4)] * 3),
         "t_dag_mul_exp": _req(t_dag_mul_exp, [(2, 3, 4)] * 2),
+        "t_dag_keep": _req(t_dag_keep, [(2, 3, 4)] * 2),
         "reshape_pair": _req(reshape_pair, [(2, 3, 4)]),
         "fori": _req(fori, [(3,)]),
         "scan": _req(scan, [(5, 4)]),
